@@ -208,6 +208,10 @@ func (g *Gen) fnNodes() (fns []int, cuts []int) {
 			continue
 		}
 		switch ref.Kind {
+		case "Sentinel":
+			if g.P.Sentinels > 0 && g.P.WFaultPass > 0 && ref.Watched >= 0 {
+				fns = append(fns, id)
+			}
 		case "Map", "Map2", "MapN", "BindLhs":
 			fns = append(fns, id)
 		case "Cutoff":
@@ -762,7 +766,9 @@ func RunEraseTwin(orig *Exec) (findings []Finding) {
 		}
 		isPass := op.K == "Stabilize" || op.K == "StabilizeCancelled"
 		if s.Class != ref.Class {
-			if isPass && (s.Class == "XOk" || ref.Class == "XOk") && len(op.Plan) == 0 {
+			// (a pass run with a cancelled context returns nil when nothing is queued and the context's
+			// error otherwise: whether something is queued legitimately differs between the twins)
+			if isPass && op.K != "StabilizeCancelled" && (s.Class == "XOk" || ref.Class == "XOk") && len(op.Plan) == 0 {
 				findings = append(findings, Finding{Prop: "C11", Kind: "twin-result-differs", Op: i + 1,
 					What: fmt.Sprintf("%s returns %s with equality cutoffs / VarEqual and %s without", op.String(), ref.Class, s.Class)})
 			}
